@@ -80,7 +80,8 @@ fn account<T>(ctx: &mut Ctx, what: &str, run: &Run<T>, b: &[u8], o: Option<SOpts
 pub fn judge_msg(ctx: &mut Ctx, b: &[u8], o: Option<SOpts>) {
     let base = exec::decode_msg(b, o, Rk::Slice);
     let mut unchecked = 0;
-    for rk in [Rk::ContractSlice, Rk::ContractVec, Rk::Segmented(1 + (ctx.rng.below(5)) as usize)] {
+    let reentrant = Rk::Reentrant(1 + ctx.rng.below(40));
+    for rk in [Rk::ContractSlice, Rk::ContractVec, Rk::Segmented(1 + (ctx.rng.below(5)) as usize), reentrant] {
         let run = exec::decode_msg(b, o, rk);
         unchecked += account(ctx, "decode", &run, b, o);
         ctx.rep.bucket("readers.compared");
